@@ -127,19 +127,25 @@ def pp_render_atom(a):
 
 
 def pp_case(cid, c):
-    parts, fills = [], {}
+    parts, full, fills = [], [], {}
     n = len(c["occ"])
     for i, o in enumerate(c["occ"], 1):
         parts.append(pp_render_tr(o["form"]))
-        parts += [pp_render_atom(a) for a in o["trail"]]
+        # the same description with the missing directions written out (the configured defaults)
+        f = o["form"]
+        full.append(pp_render_tr(dict(f, ns=f["ns"] if f["ns"] != "-" else c["dflt"]["ns"],
+                                      ew=f["ew"] if f["ew"] != "-" else c["dflt"]["ew"])))
+        rest = [pp_render_atom(a) for a in o["trail"]]
         if o["pm"]:
-            parts.append(" of the 5th P.M.,")
+            rest.append(" of the 5th P.M.,")
         fills[str(i)] = pp_fill(i)
-        parts.append(" " + fills[str(i)])
+        rest.append(" " + fills[str(i)])
         if i < n:
-            parts.append("; ")
+            rest.append("; ")
+        parts += rest
+        full += rest
     return {"id": cid, "kind": "c08doc", "abs": {"occ": c["occ"], "dflt": c["dflt"]},
-            "args": {"text": "".join(parts), "dflt": c["dflt"], "fills": fills}}
+            "args": {"text": "".join(parts), "written_out": "".join(full), "dflt": c["dflt"], "fills": fills}}
 
 
 def check_docs(ctx, cases):
@@ -152,12 +158,12 @@ def check_docs(ctx, cases):
         by_id[c["id"]] = c
         recs.append({"id": c["id"], "occ": c["abs"]["occ"], "dflt": c["abs"]["dflt"], "obs": o.get("obs") or [],
                      "found": o.get("found") or [], "tracts": o.get("tracts") or [], "leftover": bool(o.get("leftover")),
-                     "again": bool(o.get("again")), "exc": o.get("exc", "none")})
+                     "again": bool(o.get("again")), "as_written_out": bool(o.get("as_written_out", True)), "exc": o.get("exc", "none")})
         ctx.nontrivial.add((c["args"]["text"], c["abs"]["dflt"]["ns"], c["abs"]["dflt"]["ew"]))
     fails, drifts = ctx.validate("PreprocessTrace", recs, PP_CONSTS, invariants=("Verdict", "Drift"))
     for cid, clause, *_ in fails:
         o = obs[cid]
-        ctx.violation(by_id[cid], clause, {"observed": {k: o.get(k) for k in ("pp_text", "found", "tracts", "leftover", "exc", "exc_msg")}})
+        ctx.violation(by_id[cid], clause, {"observed": {k: o.get(k) for k in ("pp_text", "found", "tracts", "leftover", "written_out_diff", "exc", "exc_msg")}})
     if drifts:
         cid = drifts[0]
         ctx.add_drift(len(drifts), {"text": by_id[cid]["args"]["text"], "preprocessed": obs[cid].get("pp_text"),
